@@ -114,6 +114,7 @@ func (n *ProtoNode) CidBuilder() cid.Builder {
 func (n *ProtoNode) SetCidBuilder(builder cid.Builder) error {
 	if builder == nil {
 		n.builder = v0CidPrefix
+		n.cached = cid.Undef
 		return nil
 	}
 	switch b := builder.(type) {
